@@ -38,7 +38,7 @@ from lib import stage
 
 ID = "C13"
 NEEDS_GEN = True
-LEAN_TARGETS = ["AiuVerif.Props.C13", "AiuVerif.Props.Order"]
+LEAN_TARGETS = ["AiuVerif.Props.C13", "AiuVerif.Props.Order", "AiuVerif.Props.C13Link"]
 THEOREMS = [
     "AiuVerif.C13.sweep_correct",
     "AiuVerif.C13.sweep_samples_every_change",
@@ -49,7 +49,8 @@ THEOREMS = [
     "AiuVerif.C13.prepIvs_sorted_of_sorted_stream",
     "AiuVerif.C13.concurrent_preps_correct_of_sorted_stream",
     "AiuVerif.C13.inFlightBefore_is_left_limit",
-    "AiuVerif.Order.preps_order",   # registration order / guards / shared context, re-decided on the generated sites
+    "AiuVerif.Order.preps_order",   # registration order / guards / shared context, re-decided on the generated sites,
+    "AiuVerif.C13.concurrent_preps_behind_mp_sync",   # sortedness hypothesis discharged by C07.sorted_out
 ]
 RULE = ("event streams for the queueing_counter stage: exhaustive start-sorted families of up to 4 (quick) / 5 "
         "(thorough) Prep intervals with endpoints in {0..5} x keep_prep on/off; random structured streams with "
@@ -64,7 +65,9 @@ TRUSTED = ["regular expression `Cmpt Prep$` is modelled as: name ends with 'Cmpt
 ASSUMPTIONS = ["Prep slices of one rank reach the stage sorted by start (provided by mp_sync_tight / the ingestion "
                "merge in the real pipeline; a hypothesis of the theorems; observed, not proved, in the e2e runs)",
                "Prep slices have dur > 0"]
-NOT_YET_PROVED = ["that MpSyncTightContext.drain hands the stage a ts-sorted stream (Python list.sort in the stage before) is not "
+NOT_YET_PROVED = ["with -M (no clock alignment) the Prep sweep receives the stream in ingestion order after the time conversions; "
+                  "its sortedness is then not established (outside the property's quantifier; e2e runs do not use -M)"]
+NOT_YET_PROVED_OLD = ["that MpSyncTightContext.drain hands the stage a ts-sorted stream (Python list.sort in the stage before) is not "
                   "modelled: observed by the e2e oracle only; the step from a ts-sorted stream to the per-rank hypothesis of "
                   "sweep_correct is proved (prepIvs_sorted_of_sorted_stream)"]
 
